@@ -8,7 +8,7 @@ fn seq_seed(seed: u64, idx: u64) -> u64 {
     splitmix(&mut x)
 }
 
-pub fn run_one(ctx: &Ctx, s: u64, st: &[AtomicU64; 8]) {
+pub fn run_one(ctx: &Ctx, s: u64, st: &[AtomicU64; 10]) {
     match guarded(|| run_sequence(s)) {
         Ok((ops, q, _, feat)) => {
             st[0].fetch_add(ops as u64, Relaxed);
@@ -16,6 +16,8 @@ pub fn run_one(ctx: &Ctx, s: u64, st: &[AtomicU64; 8]) {
             for k in 0..4 {
                 st[2 + k].fetch_add(feat[k] as u64, Relaxed);
             }
+            st[8].fetch_add(feat[4] as u64, Relaxed);
+            st[9].fetch_add(feat[5] as u64, Relaxed);
             if feat[0] > 0 {
                 st[6].fetch_add(1, Relaxed);
             }
@@ -34,7 +36,7 @@ pub fn run_one(ctx: &Ctx, s: u64, st: &[AtomicU64; 8]) {
 }
 
 pub fn run(ctx: &Ctx) -> i32 {
-    let st: [AtomicU64; 8] = Default::default();
+    let st: [AtomicU64; 10] = Default::default();
     if let Some(p) = &ctx.args.replay {
         let j = parse_json(&std::fs::read_to_string(p).expect("replay file")).expect("json");
         ctx.eval(1);
@@ -60,14 +62,18 @@ pub fn run(ctx: &Ctx) -> i32 {
     ctx.cov("column_freezes", J::i(st[2].load(Relaxed)));
     ctx.cov("partial_row_additions", J::i(st[3].load(Relaxed)));
     ctx.cov("resizes", J::i(st[4].load(Relaxed)));
+    ctx.cov("index_re-enabled_after_an_un-indexed_phase", J::i(st[8].load(Relaxed)));
+    ctx.cov("dense-only_resizes_to_an_arbitrary_smaller_size", J::i(st[9].load(Relaxed)));
     let q = ctx.args.ex("n").is_none();
     if ctx.n_violations() == 0 {
         ctx.floor("dense_tail_growth_across_a_word_boundary", st[5].load(Relaxed), if q { 20 } else { 0 });
         ctx.floor("sequences_with_a_freeze", st[6].load(Relaxed), if q { 500 } else { 1 });
+        ctx.floor("index_re-enabled_after_an_un-indexed_phase", st[8].load(Relaxed), if q { 200 } else { 0 });
+        ctx.floor("dense-only_narrowing_resizes", st[9].load(Relaxed), if q { 200 } else { 0 });
         ctx.floor("sequences_with_freeze_and_partial_add_and_resize", st[7].load(Relaxed), if q { 50 } else { 0 });
     }
     ctx.finish(
-        "generated operation sequences that respect the interface's preconditions (construction: new(h>=w, any tail hint incl. 0) + set; indexed phase: solver-like grammar of swap_rows, swap_columns inside the sparse region, freezing the last sparse column, row additions with start 0 (single-sparse-one source) or at the first dense column, column queries on valid indexed columns; un-indexed phase: arbitrary row additions, swaps, set, resize (same width or dropping all dense columns), dense-tail queries); widths 1..420 with emphasis on 63/64/65/127/128/129/191/192/193/255/256/257, dense-tail hints 0..260 incl. exact multiples of 64, tails growing through freezes across word boundaries; every query answer (get on every defined cell at quiescent points, count_ones, row iterators as sets of ones, ones-in-column, non-zero columns, packed sub-rows through hook verif_words, height/width, clone) of both implementations compared with a Vec<Vec<{0,1,undefined}>> model. non-trivial = sequence with >= 1 freeze, >= 1 partial row addition and a resize; distinct by sequence seed",
+        "generated operation sequences that respect the interface's preconditions (construction: new(h>=w, any tail hint incl. 0) + set; indexed phase: solver-like grammar of swap_rows, swap_columns inside the sparse region, freezing the last sparse column, row additions with start 0 (single-sparse-one source) or at the first dense column, column queries on valid indexed columns; un-indexed phase: arbitrary row additions, swaps, set, resize (same width or dropping all dense columns), dense-tail queries; one to three such (indexed, un-indexed) rounds per sequence, the index being re-enabled after sets / row additions / resizes made while it was off; a dense-only epilogue shrinks the dense matrix to arbitrary smaller sizes (also inside a 64-bit word) and continues with row additions, sets, swaps and every query); widths 1..420 with emphasis on 63/64/65/127/128/129/191/192/193/255/256/257, dense-tail hints 0..260 incl. exact multiples of 64, tails growing through freezes across word boundaries; every query answer (get on every defined cell at quiescent points, count_ones, row iterators as sets of ones, ones-in-column, non-zero columns, packed sub-rows through hook verif_words, height/width, clone) of both implementations compared with a Vec<Vec<{0,1,undefined}>> model. non-trivial = sequence with >= 1 freeze, >= 1 partial row addition and a resize; distinct by sequence seed",
         &["admissible-sequence grammar collected from the trait comments, asserts and unimplemented!() branches of both implementations; cells left of start_col after a partial row addition are undefined and excluded", "degenerate empty spans (start_col = end_col) and an index built on an all-zero sparse part are treated as outside the interface"],
         vec![],
     )
